@@ -18,7 +18,8 @@
 EXTENDS Prims, Json, IOUtils
 
 CONSTANTS N,        \* pool size
-          Depth     \* number of operations per behaviour
+          Depth,    \* number of operations per behaviour
+          Sim       \* TRUE: one randomly drawn candidate per step (tlc -simulate); FALSE: every candidate
 
 VARIABLES hp, pool, hist, variant
 vars == <<hp, pool, hist, variant>>
@@ -102,26 +103,37 @@ OpsIdx == {"list-tail", "list-ref", "vector-ref", "vector-copy"}
 OpsKey == {"memq", "memv", "member", "assq", "assv", "assoc"}
 OpsMut2 == {"set-car!", "set-cdr!", "vector-fill!"}
 
-Cands ==
-     {<<o, <<P(k)>>>> : o \in Ops1, k \in Slots}
-\cup {<<o, <<P(j), P(k)>>>> : o \in Ops2, j \in Slots, k \in Slots}
-\cup {<<"append", <<P(i), P(j), P(k)>>>> : i \in Slots, j \in Slots, k \in {1}}
-\cup {<<"list", <<P(j), P(k)>>>> : j \in Slots, k \in Slots}
-\cup {<<"vector", <<P(j), P(k)>>>> : j \in Slots, k \in Slots}
-\cup {<<o, <<P(k)>>>> : o \in {"list", "vector"}, k \in Slots}          \* exactly one (rest) argument
-\cup {<<o, <<P(i), P(j), P(k)>>>> : o \in {"list", "vector"}, i \in {1}, j \in Slots, k \in {2, 4}}
-\cup UNION {{<<o, <<P(k), I(i)>>>> : o \in OpsIdx, i \in IdxFor(LenOf(pool[k]))} : k \in Slots}
-\cup {<<o, <<x, P(k)>>>> : o \in OpsKey, x \in Keys, k \in Slots}
-\cup {<<"member", <<P(j), P(k)>>>> : j \in Slots, k \in Slots}
-\cup {<<"assoc", <<P(j), P(k)>>>> : j \in Slots, k \in Slots}
-\cup {<<o, <<P(k), x>>>> : o \in OpsMut2, k \in Slots, x \in Vals}
-\cup UNION {{<<"vector-set!", <<P(k), I(i), x>>>> : i \in IdxFor(LenOf(pool[k])), x \in Vals} : k \in Slots}
-\cup {<<"make-vector", <<I(i), x>>>> : i \in {-1, 0, 1, 3}, x \in Vals}
-\cup UNION {{<<"vector-copy!", <<P(j), I(at), P(k)>>>> : k \in Slots, at \in IdxFor(LenOf(pool[j]))} : j \in Slots}
-\cup UNION {{<<"vector-copy!", <<P(j), I(at), P(k), I(st)>>>> :
-                j \in Slots, at \in {0, 1}, st \in IdxFor(LenOf(pool[k]))} : k \in Slots}
-\cup UNION {{<<"vector-copy!", <<P(j), I(at), P(k), I(st), I(en)>>>> :
-                j \in Slots, at \in {0, 1}, st \in {0, 1}, en \in IdxFor(LenOf(pool[k]))} : k \in Slots}
+\* candidate operations, by family (a simulation first draws a family, then one candidate of it: drawn uniformly
+\* from the union, 40% of the steps were vector-copy! and a behaviour of 12 steps hardly ever held a mutation
+\* after a copy)
+NFam == 19
+CandsOf(f) ==
+  CASE f = 1 -> {<<o, <<P(k)>>>> : o \in Ops1, k \in Slots}
+    [] f = 2 -> {<<o, <<P(j), P(k)>>>> : o \in Ops2, j \in Slots, k \in Slots}
+    [] f = 3 -> {<<"append", <<P(i), P(j), P(k)>>>> : i \in Slots, j \in Slots, k \in {1}}
+    [] f = 4 -> {<<o, <<P(j), P(k)>>>> : o \in {"list", "vector"}, j \in Slots, k \in Slots}
+    [] f = 5 -> {<<o, <<P(k)>>>> : o \in {"list", "vector"}, k \in Slots}          \* exactly one (rest) argument
+    [] f = 6 -> {<<o, <<P(i), P(j), P(k)>>>> : o \in {"list", "vector"}, i \in {1}, j \in Slots, k \in {2, 4}}
+    [] f = 7 -> UNION {{<<o, <<P(k), I(i)>>>> : o \in OpsIdx, i \in IdxFor(LenOf(pool[k]))} : k \in Slots}
+    [] f = 8 -> {<<o, <<x, P(k)>>>> : o \in OpsKey, x \in Keys, k \in Slots}
+    [] f = 9 -> {<<o, <<P(j), P(k)>>>> : o \in {"member", "assoc"}, j \in Slots, k \in Slots}
+    [] f = 10 -> {<<o, <<P(k), x>>>> : o \in OpsMut2, k \in Slots, x \in Vals}
+    [] f = 11 -> UNION {{<<"vector-set!", <<P(k), I(i), x>>>> : i \in IdxFor(LenOf(pool[k])), x \in Vals} : k \in Slots}
+    [] f = 12 -> {<<"make-vector", <<I(i), x>>>> : i \in {-1, 0, 1, 3}, x \in Vals}
+    [] f = 13 -> UNION {{<<"vector-copy!", <<P(j), I(at), P(k)>>>> : k \in Slots, at \in IdxFor(LenOf(pool[j]))} : j \in Slots}
+    [] f = 14 -> UNION {{<<"vector-copy!", <<P(j), I(at), P(k), I(st)>>>> :
+                           j \in Slots, at \in {0, 1}, st \in IdxFor(LenOf(pool[k]))} : k \in Slots}
+    [] f = 15 -> UNION {{<<"vector-copy!", <<P(j), I(at), P(k), I(st), I(en)>>>> :
+                           j \in Slots, at \in {0, 1}, st \in {0, 1}, en \in IdxFor(LenOf(pool[k]))} : k \in Slots}
+    \* the copying operations and the mutators once more, on their own: a copy followed by a mutation of the
+    \* original (or of the copy) is what shows a structure or an element cell that is shared by mistake
+    [] f = 16 -> {<<o, <<P(k)>>>> : o \in {"reverse", "vector->list", "list->vector", "map-id", "for-each-collect", "vector-copy0", "cdr"}, k \in Slots}
+    [] f = 17 -> {<<o, <<P(j), P(k)>>>> : o \in {"cons", "append", "map-cons"}, j \in Slots, k \in Slots}
+    [] f = 18 -> {<<o, <<P(k), x>>>> : o \in {"set-car!", "set-cdr!"}, k \in Slots, x \in {I(9), Lt(3)}}
+    [] f = 19 -> UNION {{<<"vector-set!", <<P(k), I(i), x>>>> : i \in {0, 1, LenOf(pool[k]) - 1} \cap (0..100), x \in {I(9), Lt(3)}} : k \in Slots}
+Cands == UNION {CandsOf(f) : f \in 1..NFam}
+SimFamilies == <<1, 1, 2, 2, 3, 4, 5, 6, 7, 7, 8, 9, 10, 10, 10, 11, 11, 12, 13, 14, 15, 16, 16, 16, 17, 17, 18, 18, 18, 19, 19>>
+SimCands == CandsOf(SimFamilies[RandomElement(1..Len(SimFamilies))])
 
 -----------------------------------------------------------------------------
 \* the required outcome of one operation (derived operations are expressed through Prims)
@@ -194,7 +206,7 @@ Step ==
   /\ Len(hist) < NInit + Depth
   /\ IF Len(hist) < NInit
      THEN LET o == InitOps(variant)[Len(hist) + 1] IN Apply(o.op, o.a, o.dst)
-     ELSE \E c \in Cands : Apply(c[1], c[2], ((Len(hist)) % N) + 1)
+     ELSE \E c \in (IF Sim THEN {RandomElement(SimCands)} ELSE Cands) : Apply(c[1], c[2], ((Len(hist)) % N) + 1)
   /\ UNCHANGED variant
 
 \* after an outcome the specification does not prescribe, the state of the implementation is unknown:
